@@ -39,7 +39,8 @@ class _HangInterrupt(KeyboardInterrupt):
     those (and SystemExit) propagate out of a task step / a callback instead of storing them in the task."""
 
 
-WATCHDOG_S = float(os.environ.get("VERIF_EXEC_WATCHDOG_S", "45"))
+WATCHDOG_S = float(os.environ.get("VERIF_EXEC_WATCHDOG_S", "20"))
+_hangs = [0]  # once an execution of this process hung, later ones get a short fuse (a scenario may hold hundreds of them)
 
 
 def _on_alarm(signum, frame):
@@ -108,7 +109,7 @@ class VLoop(base_events.BaseEventLoop):
         armed = False
         if WATCHDOG_S > 0 and threading.current_thread() is threading.main_thread():
             prev_handler = signal.signal(signal.SIGALRM, _on_alarm)
-            signal.setitimer(signal.ITIMER_REAL, WATCHDOG_S)
+            signal.setitimer(signal.ITIMER_REAL, WATCHDOG_S if not _hangs[0] else min(WATCHDOG_S, 3.0))
             armed = True
         try:
             task = self.create_task(main_coro)
@@ -151,6 +152,7 @@ class VLoop(base_events.BaseEventLoop):
             return task
         except _HangInterrupt:
             self.hung = True
+            _hangs[0] += 1
             raise Livelock() from None
         finally:
             if armed:
